@@ -196,45 +196,37 @@ func (w *world) ackCheck(tag string, mustAdvanceFrom int) bool {
 	return false
 }
 
-// offlineActivity runs application activity while litestream is not attached.
+// offlineActivity runs application activity while litestream is not attached:
+// 1..3 rounds of (writes, checkpoint in some mode, writes that make the new WAL
+// generation shorter than / equal to / longer than a reference length). With
+// several rounds the WAL is restarted more than once while litestream is down,
+// each generation sized relative to the previous one.
 func (w *world) offlineActivity() error {
 	off := offKinds[w.rng.Intn(len(offKinds))]
-	after := afterKinds[w.rng.Intn(len(afterKinds))]
 	if off == "none" {
 		w.shapes = append(w.shapes, "off:none")
 		return nil
 	}
-	w.shapes = append(w.shapes, "off:"+off+"/after:"+after)
-	cursor, _ := oracle.LiveWALFrames(w.DBPath + "-wal")
-	// writes before the checkpoint go to t0
-	n := 1 + w.rng.Intn(3)
-	for i := 0; i < n; i++ {
-		ok, err := w.writeTable("t0")
-		if err != nil {
-			return err
-		}
-		if ok {
-			w.offCommits++
-		}
+	rounds := 1
+	if strings.HasPrefix(off, "writes+") {
+		rounds = []int{1, 1, 2, 2, 3}[w.rng.Intn(5)]
 	}
-	if mode, ok := strings.CutPrefix(off, "writes+"); ok {
-		w.AppCheckpoint(mode)
-		// writes after the checkpoint go to t2 so a later page image cannot hide a lost t0 update
-		target := 0
-		switch after {
-		case "shorter":
-			target = cursor / 2
-		case "equal":
-			target = cursor
-		case "longer":
-			target = cursor + 3 + w.rng.Intn(5)
-		}
-		for i := 0; i < 40; i++ {
-			fr, _ := oracle.LiveWALFrames(w.DBPath + "-wal")
-			if after == "none" || (i > 0 && fr >= target) {
-				break
+	ref, _ := oracle.LiveWALFrames(w.DBPath + "-wal") // litestream's old cursor, then the previous generation's length
+	tables := []string{"t0", "t2", "t1"}
+	for r := 0; r < rounds; r++ {
+		after := afterKinds[w.rng.Intn(len(afterKinds))]
+		mode := ""
+		if m, ok := strings.CutPrefix(off, "writes+"); ok {
+			mode = m
+			if r > 0 {
+				mode = hist.CheckpointModes[1+w.rng.Intn(3)] // FULL/RESTART/TRUNCATE
 			}
-			ok, err := w.writeTable("t2")
+		}
+		w.shapes = append(w.shapes, fmt.Sprintf("off:writes+%s/after:%s", mode, after))
+		// writes before the checkpoint
+		n := 1 + w.rng.Intn(3)
+		for i := 0; i < n; i++ {
+			ok, err := w.writeTable(tables[r%3])
 			if err != nil {
 				return err
 			}
@@ -242,6 +234,34 @@ func (w *world) offlineActivity() error {
 				w.offCommits++
 			}
 		}
+		if mode == "" {
+			break
+		}
+		w.AppCheckpoint(mode)
+		// writes after the checkpoint go to another table so a later page image cannot hide a lost update
+		target := 0
+		switch after {
+		case "shorter":
+			target = ref / 2
+		case "equal":
+			target = ref
+		case "longer":
+			target = ref + 3 + w.rng.Intn(5)
+		}
+		for i := 0; i < 40; i++ {
+			fr, _ := oracle.LiveWALFrames(w.DBPath + "-wal")
+			if after == "none" || (i > 0 && fr >= target) {
+				break
+			}
+			ok, err := w.writeTable(tables[(r+1)%3])
+			if err != nil {
+				return err
+			}
+			if ok {
+				w.offCommits++
+			}
+		}
+		ref, _ = oracle.LiveWALFrames(w.DBPath + "-wal")
 	}
 	return nil
 }
